@@ -5,7 +5,7 @@
 use super::*;
 use std::io::{Read, Write};
 use tiny_http_rt::{Header, Response, Server, StatusCode};
-use verif_harness::connrun::{action_enc, mask_dates, Action, ConnCase, Finish, Mode, RespSpec, WOp};
+use verif_harness::connrun::{action_enc, mask_dates, Action, ConnCase, FailingReader, Finish, Mode, RespSpec, WOp};
 use verif_harness::hex;
 use verif_harness::respgen::PieceReader;
 
@@ -54,6 +54,20 @@ fn mk_response(r: &RespSpec) -> Response<Box<dyn Read + Send>> {
     resp
 }
 
+fn mk_failing_response(r: &RespSpec, fail_after: usize) -> Response<Box<dyn Read + Send>> {
+    let mut resp = Response::new(
+        StatusCode(r.status),
+        r.hdrs.iter().filter_map(|(n, v)| Header::from_bytes(n.clone(), v.clone()).ok()).collect(),
+        Box::new(FailingReader::new(r.pieces.clone(), fail_after)) as Box<dyn Read + Send>,
+        r.declared,
+        None,
+    );
+    if let Some(t) = r.thr {
+        resp = resp.with_chunked_threshold(t);
+    }
+    resp
+}
+
 fn do_ops<W: Write + ?Sized>(w: &mut W, ops: &[WOp]) {
     for o in ops {
         match o {
@@ -86,6 +100,9 @@ fn read_phase(rq: &mut tiny_http_rt::Request, a: &Action, idx: usize, log: &Log)
     if a.as_reader > 0 {
         log.lock().unwrap()[idx].rend = "pending";
         let reader = rq.as_reader();
+        if a.zero_read {
+            let _ = reader.read(&mut []);
+        }
         let mut got = 0usize;
         let mut buf = vec![0u8; std::cmp::max(1, a.buf)];
         while got < a.read_total {
@@ -117,6 +134,10 @@ fn finish_phase(rq: tiny_http_rt::Request, a: &Action, idx: usize, log: &Log) {
         }
         match &a.fin {
             Finish::Respond(r) => rq.respond(mk_response(r)).is_ok(),
+            Finish::RespondFail(r, n) => {
+                let _ = rq.respond(mk_failing_response(r, *n));
+                true
+            }
             Finish::Drop => {
                 drop(rq);
                 true
@@ -187,6 +208,7 @@ pub struct Outcome {
     pub panicked: bool,
     pub aborted: bool,
     pub writes: Vec<usize>,
+    pub holdwire: Option<Vec<u8>>,
 }
 
 pub fn execute(c: &CtlCase, cfg: &Config) -> Outcome {
@@ -221,7 +243,7 @@ pub fn execute(c: &CtlCase, cfg: &Config) -> Outcome {
             verif_rt::thread::spawn_named("app", move || {
                 let act = |i: usize| -> Action {
                     if script.is_empty() {
-                        Action { as_reader: 0, read_total: 0, buf: 1, delay_ms: 0, fin: Finish::Drop }
+                        Action { as_reader: 0, read_total: 0, buf: 1, delay_ms: 0, fin: Finish::Drop, zero_read: false }
                     } else {
                         script[std::cmp::min(i, script.len() - 1)].clone()
                     }
@@ -287,6 +309,8 @@ pub fn execute(c: &CtlCase, cfg: &Config) -> Outcome {
         cuts.push(bytes.len());
         let mut pos = 0;
         let mut cl = &client;
+        let mut holdwire: Option<Vec<u8>> = None;
+        let mut early: Vec<u8> = vec![];
         for &cut in &cuts {
             if cut > pos {
                 let _ = cl.write(&bytes[pos..cut]);
@@ -295,6 +319,9 @@ pub fn execute(c: &CtlCase, cfg: &Config) -> Outcome {
             if Some(cut) == hold {
                 // withhold the rest until the server has said something (or everything is quiet)
                 sched::settle(2_000_000_000);
+                let (w, _, _) = client.drain_available();
+                early.extend_from_slice(&w);
+                holdwire = Some(early.clone());
             }
         }
         match end {
@@ -312,7 +339,9 @@ pub fn execute(c: &CtlCase, cfg: &Config) -> Outcome {
             }
         }
         let quiet = sched::settle(30_000_000_000);
-        let (wire, eof, reset) = client.drain_available();
+        let (wire_rest, eof, reset) = client.drain_available();
+        let mut wire = early.clone();
+        wire.extend_from_slice(&wire_rest);
         let writes = client.peer_write_log();
         // ---- a fresh connection must still be served
         let mut fresh_ok = None;
@@ -343,6 +372,7 @@ pub fn execute(c: &CtlCase, cfg: &Config) -> Outcome {
             panicked: false,
             aborted: false,
             writes,
+            holdwire,
         }
     });
     let mut out = out;
@@ -367,7 +397,7 @@ pub fn line_of(id: usize, c: &CtlCase, o: &Outcome, extra: &str) -> String {
         None => &c.base.bytes[..],
     };
     format!(
-        "conn id={} bytes={} mode={} hold={} segs={} unix=0 script={} {} {} | delivered={} wire={} eof={} results={} hang={} dates={} fresh={} received={} aborted={}",
+        "conn id={} bytes={} mode={} hold={} segs={} unix=0 script={} {} {} | delivered={} wire={} eof={} results={} hang={} dates={} fresh={} received={} aborted={}{}",
         id,
         hex(sent),
         match c.end {
@@ -393,7 +423,11 @@ pub fn line_of(id: usize, c: &CtlCase, o: &Outcome, extra: &str) -> String {
             None => "na",
         },
         o.received,
-        if o.aborted { 1 } else { 0 }
+        if o.aborted { 1 } else { 0 },
+        match &o.holdwire {
+            Some(h) => format!(" holdwire={}", hex(&mask_dates(h).0)),
+            None => String::new(),
+        }
     )
 }
 
